@@ -1,4 +1,4 @@
-import FluteModel.Lemmas.SessionRun
+import FluteModel.Lemmas.SessionStream
 import FluteModel.Lemmas.SessionCodec
 /-
   C02 — loss recovery: any loss / duplication pattern (order preserved) that leaves an FDT instance
@@ -15,33 +15,51 @@ open Flute Flute.Session Flute.Lemmas.Session
 /-- what the object sees of an arriving packet list is exactly its own packets, in order
     (whatever the FDT layer does, whatever else is multiplexed) -/
 theorem events_packets (decF : (k p : Nat) → List Nat → Bool) (rc : RxCfg) (s : SessCfg) (o : ObjCfg)
-    (hto : o.toi ≠ 0) : ∀ (ps : List Pkt) (st : FdtRx),
-    pktSyms (eventsFor decF rc s o st ps) =
-      (ps.filter (fun p => p.toi == o.toi)).map (fun p => { sbn := p.sbn, esi := p.esi, close := p.close }) := by
-  intro ps
-  induction ps with
-  | nil => intro st; simp [eventsFor, pktSyms]
-  | cons p ps ih =>
-    intro st
-    unfold eventsFor
-    by_cases h0 : p.toi = 0
-    · have hne : (p.toi == o.toi) = false := by rw [h0]; exact beq_false_of_ne (fun h => hto h.symm)
-      have h0' : (p.toi == 0) = true := by rw [h0]; rfl
-      rw [if_pos h0']
-      rw [List.filter_cons_of_neg (by rw [hne]; simp)]
-      split
-      split
-      · simp only [pktSyms]; exact ih _
-      · exact ih _
-    · have : (p.toi == 0) = false := by simpa using h0
-      simp only [this, Bool.false_eq_true, ↓reduceIte]
-      by_cases ht : p.toi = o.toi
-      · simp only [ht, beq_self_eq_true, ↓reduceIte, pktSyms, List.filter_cons_of_pos, List.map_cons]
-        rw [ih]
-      · have : (p.toi == o.toi) = false := by simpa using ht
-        simp only [this, Bool.false_eq_true, ↓reduceIte]
-        rw [List.filter_cons_of_neg (by simp [ht])]
-        exact ih _
+    (hto : o.toi ≠ 0) (ps : List Pkt) (st : FdtRx) :
+    pktSyms (eventsFor decF rc s o st ps) = osyms o ps :=
+  Lemmas.Session.events_packets decF rc s o hto ps st
+
+/-- **C02, stream level (FullFDT sessions).**  `stream` = the packets the sender emitted (any list),
+    `mults` = how often each arrives (0 = lost, >1 = duplicated; order preserved), written as
+    `ps1 ++ ps2` at a point by which an FDT instance `f` has been received whole - decodable symbols of
+    each of ITS blocks, counted over all copies of the instance (the FDT is FEC-protected like any
+    object: `hwhole`) - and before which no close-object packet of the object arrived (`hnoclose`,
+    finding D30).  If the object's packets are genuine and only its very last emitted packet carries
+    the close-object flag (`OnlyLast`, sender fact), every FDT instance of the session lists the object
+    (FullFDT), and what arrives holds decodable symbols of every block of the object (`hdec`: RS any k
+    distinct, others the k source symbols, or whatever else the decoder accepts), then the object
+    writer gets `complete` - for EVERY loss / duplication pattern, every decoder pair satisfying the
+    contract, every interleaving with other objects. -/
+theorem recoverable_delivers_stream (cF cO : Codec) (rc : RxCfg) (s : SessCfg) (o : ObjCfg)
+    (hto : o.toi ≠ 0) (hN : o.ks.isEmpty = false) (hfit : Fits rc o)
+    (hall : ∀ f, f ∈ s.fdts → f.files.contains o.toi = true)
+    (f : FdtCfg) (hfind : s.fdts.find? (fun x => x.id == f.id) = some f)
+    (hfN : f.ks.isEmpty = false) (hflook : f.ks.size ≤ rc.maxLook)
+    (hfresh : blockDone cF.canDecode f.ks s.fdtP [] 0 = false)
+    (stream : List Pkt) (mults : List Nat) (ps1 ps2 : List Pkt)
+    (hrecv : applyMults stream mults = ps1 ++ ps2)
+    (hgenF : ∀ p, p ∈ stream → p.toi = 0 → p.fdtId = f.id → Genuine (fdtObj s f) (toSym p) ∧ p.close = false)
+    (hgenO : ∀ q, q ∈ osyms o stream → Genuine o q)
+    (hlast : OnlyLast (osyms o stream))
+    (hwhole : AllDec cF (fdtObj s f) (fsyms f.id ps1))
+    (hnoclose : ∀ q, q ∈ osyms o ps1 → q.close = false)
+    (hdec : AllDec cO o (osyms o (ps1 ++ ps2)))
+    (hsome : osyms o (ps1 ++ ps2) ≠ []) :
+    1 ≤ (observe cF.canDecode cO.canDecode rc s o (applyMults stream mults)).completes := by
+  have hmem : ∀ p, p ∈ ps1 ++ ps2 → p ∈ stream := by
+    intro p hp; rw [← hrecv] at hp; exact mem_applyMults stream mults p hp
+  rw [hrecv]
+  apply stream_core cF cO rc s o hto hN hfit hall f hfind hfN hflook hfresh ps1 ps2
+  · intro p hp; exact hgenF p (hmem p (List.mem_append_left _ hp))
+  · exact hwhole
+  · exact hnoclose
+  · intro q hq
+    obtain ⟨p, hp, ht, rfl⟩ := mem_osyms.mp hq
+    exact hgenO _ (mem_osyms.mpr ⟨p, hmem p hp, ht, rfl⟩)
+  · rw [← hrecv]
+    exact closeLast_of_CL _ (closeLast_applyMults o stream mults hlast)
+  · exact hdec
+  · exact hsome
 
 /-- **C02 (receiver side, full strength over reception histories).**
     For EVERY decoder satisfying the contract `Codec`, every receiver configuration whose resource
